@@ -215,7 +215,24 @@ func checkConcurrent(c concCase) (h.Info, error) {
 		jb := c.Jobs[g]
 		for it := 0; it < c.Iters; it++ {
 			ctx, cancel := context.WithTimeout(context.Background(), 60*time.Second)
-			nonce, err := w.Mine(ctx, append([]byte{}, jb.Data...), jb.Target)
+			type res struct {
+				nonce uint64
+				err   error
+			}
+			ch := make(chan res, 1)
+			go func() {
+				n, e := w.Mine(ctx, append([]byte{}, jb.Data...), jb.Target)
+				ch <- res{n, e}
+			}()
+			var nonce uint64
+			var err error
+			select {
+			case r := <-ch:
+				nonce, err = r.nonce, r.err
+			case <-time.After(100 * time.Second):
+				// termination is C13's statement: a call that hangs leaves C12 undecided
+				h.InfraAndExit("C12", "concurrent-callers-one-worker", c, fmt.Sprintf("v2.Mine(data=%x, target=%d) did not return within 100 s (40 s after its context expired); C12 cannot be decided, see C13", []byte(jb.Data), jb.Target))
+			}
 			cancel()
 			if err != nil {
 				continue
